@@ -1929,6 +1929,7 @@ extern int32_t tls13TranscriptHashSnapshot(ssl_t *ssl,
         unsigned char *out);
 
 /* Signatures. */
+extern psBool_t tls13IsRsaPssSigAlg(uint16_t alg);
 extern psBool_t tls13IsRsaSigAlg(uint16_t alg);
 extern psBool_t tls13IsEcdsaSigAlg(uint16_t alg);
 extern psBool_t tls13IsInsecureSigAlg(uint16_t alg);
